@@ -65,9 +65,12 @@ def run(prog: Program, res: Result, tier: str) -> None:
     if ok:
         v = acc[0].target
         F, L = "self.header.chan_freqs", "L<in freq_mask>"
-        inr = {f"np.logical_and(cmp[LtE]({L}[0], {F}), cmp[LtE]({F}, {L}[1]))", f"np.logical_and(cmp[LtE]({F}, {L}[1]), cmp[LtE]({L}[0], {F}))"}
+        lo_, hi_ = f"cmp[LtE]({L}[0], {F})", f"cmp[LtE]({F}, {L}[1])"
+        # the two comparisons are boolean arrays: logical_and and & agree on them (and | with the boolean accumulator)
+        inr = {f"np.logical_and({lo_}, {hi_})", f"np.logical_and({hi_}, {lo_})", f"BitAnd({lo_}, {hi_})", f"BitAnd({hi_}, {lo_})"}
         ups = [e for e in nfa.effects if e.kind == "set" and e.target == v and e is not acc[0]]
-        ok = len(ups) == 1 and ups[0].text() in {f"np.logical_or({v}, {r})" for r in inr} | {f"np.logical_or({r}, {v})" for r in inr} and \
+        ok = len(ups) == 1 and ups[0].text() in {f"{o}({v}, {r})" for r in inr for o in ("np.logical_or", "BitOr")} | \
+            {f"{o}({r}, {v})" for r in inr for o in ("np.logical_or", "BitOr")} and \
             [e.text() for e in nfa.sets("self.user_mask")] == [v]
     (res.ok if ok else res.bad)("R1", am, am.node, "user mask = union over ranges of (lo <= chan_freqs <= hi), starting from all-False" if ok else
                                 "apply_mask no longer builds the closed-range union from an all-False mask", construct="apply_mask", key="apply_mask")
@@ -99,7 +102,7 @@ def run(prog: Program, res: Result, tier: str) -> None:
     if ok:
         v = accq[0].target
         ups = [e for e in nfq.effects if e.kind == "set" and e.target == v and e is not accq[0]]
-        ok = len(ups) == 1 and ups[0].text().startswith(f"np.logical_or({v}, cmp[Lt](threshold, np.abs(stats.estimate_zscore(L<in ") and \
+        ok = len(ups) == 1 and any(ups[0].text().startswith(f"{o}({v}, cmp[Lt](threshold, np.abs(stats.estimate_zscore(L<in ") for o in ("np.logical_or", "BitOr")) and \
             ups[0].text().endswith(">, scale_method='iqr').data)))") and [e.text() for e in nfq.returns()] == [v]
     (res.ok if ok else res.bad)("R1", f, f.node, "iqrm_mask: |z| > threshold (strict), threshold must be positive" if ok else
                                 "iqrm_mask: thresholding of the z-scores changed", construct="iqrm_mask", key="iqrm_mask")
